@@ -89,13 +89,11 @@ func c08IPRun(seq []int, alphabet []c08IPFrag, msg, payload []byte, src, dst tcp
 		if f.a == f.b {
 			hostile = true
 		}
-		if delivered == 0 {
-			for u := f.a; u < f.b; u++ {
-				covered[u] = true
-			}
-			if f.last {
-				haveLast = true
-			}
+		for u := f.a; u < f.b; u++ {
+			covered[u] = true
+		}
+		if f.last {
+			haveLast = true
 		}
 		complete := haveLast
 		for _, c := range covered {
@@ -103,8 +101,6 @@ func c08IPRun(seq []int, alphabet []c08IPFrag, msg, payload []byte, src, dst tcp
 		}
 		v, _, rerr := ep.Read(nil)
 		switch {
-		case rerr == nil && delivered > 0:
-			return fmt.Sprintf("fragments %v: a second datagram (%d bytes) was delivered", hist, len(v))
 		case rerr == nil && !complete:
 			return fmt.Sprintf("fragments %v: %d bytes were delivered to the socket although the fragments received do not make up the datagram (covered units %v, last fragment seen: %v)", hist, len(v), covered, haveLast)
 		case rerr == nil && !bytes.Equal(v, payload):
@@ -113,7 +109,7 @@ func c08IPRun(seq []int, alphabet []c08IPFrag, msg, payload []byte, src, dst tcp
 			delivered++
 			covered = make([]bool, len(covered)) // later fragments belong to a new (incomplete) set
 			haveLast = false
-		case complete && delivered == 0 && !hostile:
+		case complete && !hostile:
 			return fmt.Sprintf("fragments %v: the set is complete but nothing was delivered (%v)", hist, rerr)
 		}
 	}
